@@ -197,6 +197,14 @@ func bIntField(b []byte) (*big.Int, bool) {
 // wrapped is true when the value is the content of an annotation wrapper.
 // It returns nop=true (and a nil value) for NOP padding.
 func (d *binDecoder) value(pos, limit int, overRule string, depth int, wrapped bool) (*model.Value, bool, int, *Error) {
+	v, nop, next, e := d.value0(pos, limit, overRule, depth, wrapped)
+	if e != nil && e.In == 0 {
+		e.In = pos // the innermost value that was being decoded when the rule was violated
+	}
+	return v, nop, next, e
+}
+
+func (d *binDecoder) value0(pos, limit int, overRule string, depth int, wrapped bool) (*model.Value, bool, int, *Error) {
 	if limit > len(d.data) {
 		limit = len(d.data)
 	}
